@@ -69,7 +69,7 @@ func runC19(c *Ctx) {
 		return
 	}
 	sl := analyseScanLoop(c, "R19.1", fn, p.TypesInfo.Defs[s.advFn.Name], p.TypesInfo.Defs[s.evalFn.Name], s.errorState)
-	if sl.ok {
+	if sl.pathsDone {
 		checkPendingAtEOF(c, "R19.1", sl, "emitted lexer")
 	}
 	// positions inside the scratch module are meaningless: drop them, keep keys stable
@@ -78,6 +78,7 @@ func runC19(c *Ctx) {
 		c.Obs[i].Key = "emitted lexer: " + strings.TrimPrefix(c.Obs[i].Key, "scan loop: ")
 	}
 	if !sl.ok {
+		c.Undecided("R19.2", "which terminals the emitted lexer skips", token.NoPos, "the treatment of the evaluated token was not understood")
 		return
 	}
 	// R19.2 skip set
